@@ -93,6 +93,9 @@ func c11Program(pg *gen.PG, i int) (string, []*canon.Node) {
   (defmacro two-temps%[1]s (fn (a b) (let (x (gensym) y (gensym)) (list 'let (list x a y b) (list 'list x y)))))
   (def temps-loop%[1]s (fn (n bad) (if (< n 1) bad (temps-loop%[1]s (- n 1) (if (= (two-temps%[1]s 1 %[2]d) (list 1 %[2]d)) bad (+ bad 1))))))
   (trace! (list :gensym-temporaries-collided (temps-loop%[1]s 60 0)))
+  (def thunk-loop%[1]s (fn (n bad) (if (< n 1) bad (thunk-loop%[1]s (- n 1) (+ bad ((fn () (def acc-local %[2]d) (if (= acc-local %[2]d) 0 1))))))))
+  (trace! (list :def-in-thunk-saw-foreign-value (thunk-loop%[1]s 60 0)))
+  (trace! (list :def-in-future-body @(future (do (def acc-local2 %[2]d) (sleep 1) (= acc-local2 %[2]d)))))
 `, sfx, tag)
 	var sb strings.Builder
 	sb.WriteString("(do\n")
@@ -323,6 +326,14 @@ func c11Batch(c *fw.Ctx, r *rand.Rand, id string, T int) {
 			}
 			if allSame {
 				c.Violate(fw.Violation{Key: "host-update-lost", What: fmt.Sprintf("evaluations bumped a counter kept through Env.Update %d times in total; it reads %v", wantBumps, hc)})
+				return
+			}
+		}
+		// a def made inside a call's own scope (a thunk, the body of a future) is a local of that call: the shared
+		// environment must not know the name afterwards
+		for _, nm := range []string{"acc-local", "acc-local2"} {
+			if v, err := e.Get(types.Symbol{Val: nm}); err == nil {
+				c.Violate(fw.Violation{Key: "call-local-def-visible-in-shared-environment", What: fmt.Sprintf("%s, defined only inside parameterless function bodies, is bound to %v in the shared environment after the batch", nm, v)})
 				return
 			}
 		}
